@@ -857,6 +857,8 @@ func (rule *RuleExpression) checkMatrixExpression(expr *String) *ObjectType {
 	if !ok {
 		return NewEmptyObjectType()
 	}
+	// The type may be shared with contexts such as 'inputs' or 'github'. Copy it before modifying it
+	matTy = matTy.DeepCopy().(*ObjectType)
 
 	// Consider properties in include section elements since 'include' section adds matrix values
 	incTy, ok := matTy.Props["include"]
